@@ -28,7 +28,7 @@ func init() {
 			{ID: "C04-R3", Title: "break/continue land at the loop's label heights (nesting graph)", Floor: 5, Run: c04r3},
 			{ID: "C04-R4", Title: "frame activation paired with deferred resumeFrame", Floor: 2, Run: c04r4},
 			{ID: "C04-R6", Title: "every run enters the dispatch loop with an empty operand stack", Floor: 1, Run: runStartsEmpty},
-			{ID: "C04-R5", Title: "run-state reset (sp) on entry only, guarded only by request and first-run", Floor: 2, Run: resetDiscipline},
+			{ID: "C04-R5", Title: "run-state reset (sp) on entry only, guarded only by request and first-run", Floor: 1, Run: resetDiscipline},
 			{ID: "C04-R7", Title: "the stack pointer is advanced only after the slot was written (it always indexes the array)", Floor: 1, Run: spStaysInRange},
 			{ID: "C04-R8", Title: "the declared effect of Unpack rests on an exact size test before every pushing loop", Floor: 1, Run: unpackSizeCheckIsExact},
 			{ID: "C04-R9", Title: "host entry points do not push", Floor: 5, Run: hostEntryPointsDoNotPush},
